@@ -240,6 +240,37 @@ func enumProbes(rng *rand.Rand, full bool, keep float64) []probe {
 			return []*stmt{{K: "define", E: es[0]}}
 		}), l)
 	}
+	// nil where no other operand gives it a type (F12-17 / F12-25): both operands of an operator, the operand of a
+	// receive or a unary operator, the channel of a send, the indexed operand; the same with the other literals as partner
+	nilOp := operand{lit: &expr{K: "nil"}}
+	for _, l := range lops {
+		for _, op := range append(append(append([]string{}, binOps...), cmpOps...), shOps...) {
+			op := op
+			k := opKind(op)
+			for _, pr := range [][2]operand{{nilOp, l}, {l, nilOp}} {
+				pr := pr
+				add(k, op, mk([]operand{pr[0], pr[1]}, func(es []*expr, nv int) []*stmt {
+					return []*stmt{{K: "define", E: &expr{K: k, Op: op, A: es[0], B: es[1]}}}
+				}), pr[0], pr[1])
+			}
+		}
+		add("recv", "", mk([]operand{l}, func(es []*expr, nv int) []*stmt {
+			return []*stmt{{K: "define", E: &expr{K: "recv", A: es[0]}}}
+		}), l)
+		add("send-lit-chan", "", mk([]operand{l}, func(es []*expr, nv int) []*stmt {
+			return []*stmt{{K: "send", C: es[0], E: &expr{K: "lit", Lit: "int", V: 1}}}
+		}), l)
+		add("index-lit", "", mk([]operand{l}, func(es []*expr, nv int) []*stmt {
+			return []*stmt{{K: "define", E: &expr{K: "index", A: es[0], B: &expr{K: "lit", Lit: "int", V: 0}}}}
+		}), l)
+	}
+	for _, op := range unOps {
+		op := op
+		add("un", op, mk([]operand{nilOp}, func(es []*expr, nv int) []*stmt {
+			return []*stmt{{K: "define", E: &expr{K: "un", Op: op, A: es[0]}}}
+		}), nilOp)
+	}
+	add("incdec-lit", "inc", &prog{Main: []*stmt{{K: "declz", T: func() *ty { t := tB("int"); return &t }()}, {K: "opassign", Op: "add", I: 0, E: &expr{K: "nil"}}}}, nilOp)
 	// assignment contexts: `var x T = e`, `x = e`, conversion `T(e)`, send `c <- e`, index `a[i]`, op-assignment
 	pairs(func(a, b operand) {
 		if a.t != nil { // a: destination type, b: source operand
